@@ -157,8 +157,9 @@ def simulate(tool, opts, data: bytes, env: Env, damaged=(), boundaries=(), budge
     if o.exit != "ok":
         r.success = False
     elif not r.out_present:
-        # documented failure result of maxtoppm: returns after removing its output file
-        r.success = False if (tool == "maxtoppm" and outp in r.removed) else True
+        # documented failure result of maxtoppm: it returns normally and no output file is
+        # left behind (whether it removed one or never created it is not the property's business)
+        r.success = False if tool == "maxtoppm" else True
     else:
         r.success = True
     if r.success:
